@@ -19,7 +19,7 @@ ASSUMPTIONS = [
 ]
 RULE = ("handshakes = banner (all of 3.3..3.8, 3.5, 3.889, 4.x, 5.0, random 000.000-999.999, below 3.3) x security offer (random subsets/orderings of "
         "{0,1,2,5,16,18,19,30,...}, the 3.3 scheme incl. invalid, zero types + reason) x password present/absent x SecurityResult in {0,1,2,3,2^32-1} x reason length "
-        "in {0,1,2,255,1000} x client class (base, library, CLI), delivered reactively (one server message per chunk) and pre-concatenated; "
+        "in {0,1,2,255,1000,1025,4097} (corpus: 1023,1024,1025,5000,70000 after a failed result and in a refusal) x client class (base, library, CLI), delivered reactively (one server message per chunk) and pre-concatenated; "
         "non-trivial = distinct handshake that gets past the version exchange")
 
 
@@ -140,7 +140,7 @@ def gen_params(r):
     native = r.choice(ACCEPTED_PF) if r.random() < .7 else r.choice(ODD_PF)
     return {"ver": ver, "scheme": r.choice([0, 1, 1, 2, 2, 3, 30, 0xFFFFFFFF, 256, 257, 258, 0x101, 0x10002, 0x1000001, 0x80000002]), "offer": offer,
             "challenge": bytes(r.randrange(256) for _ in range(16)), "result": r.choice([0, 0, 0, 1, 2, 3, 0xFFFFFFFF]),
-            "reason": bytes(r.randrange(256) for _ in range(r.choice([0, 0, 1, 2, 255, 1000]))),
+            "reason": bytes(r.randrange(256) for _ in range(r.choice([0, 0, 1, 2, 255, 1000, 1025, 4097]))),
             "gen": r.choice([2, 5]), "keylen": L, "modulus": mod.to_bytes(L, "big"), "serverkey": r.getrandbits(8 * L - 1).to_bytes(L, "big"),
             "serverinit": server_init(r.choice([1, 640]), r.choice([1, 480]), native, bytes(r.randrange(32, 127) for _ in range(r.choice([0, 1, 9]))))}
 
@@ -238,6 +238,13 @@ def run(ctx):
                 p_ = gen_params(r)
                 p_.update(ver=cver, offer=[2], scheme=2, result=cres)
                 cases.append((ckind, "secret", p_))
+    # corpus: "a reason of ANY length" - failures and refusals whose reason is a kilobyte and more (seeded C03ac: a cap at 1024)
+    for ci, rl in enumerate((1023, 1024, 1025, 5000, 70000)):
+        for cres, coffer, cver in ((1, [2], (3, 8)), (2, [2], (3, 8)), (0, [], (3, 7)), (0, [], (3, 8))):
+            p_ = gen_params(r)
+            p_.update(ver=cver, offer=coffer, scheme=2, result=cres, reason=bytes(r.randrange(256) for _ in range(rl)))
+            cases.append((("base", "lib", "cli")[ci % 3], "secret", p_))
+            ctx.count("corpus_long_reasons")
     if ctx.tier == "thorough":
         # all 10^6 numeric banners through the real _handleInitial (exhaustive): reply = highest of 3.3/3.7/3.8 <= banner
         bad = 0
